@@ -1,8 +1,347 @@
 import FtDriver.Json
 open Lean (Json)
 namespace FtDriver
-open Ft
+open Ft Ft.C07
 
-def handleC07 (_j : Json) : Except String Verdict := throw "C07: not implemented"
+/-! C07 — traversal modes.  Every helper is prefixed `c07_`. -/
+
+def c07_optInt (j : Json) (k : String) : Option Int :=
+  match j.getObjVal? k with
+  | .ok v => (match v.getInt? with | .ok i => some i | _ => none)
+  | _ => none
+
+def c07_optNat (j : Json) (k : String) : Option Nat :=
+  (c07_optInt j k).bind (fun i => if i < 0 then none else some i.toNat)
+
+def c07_optPair (j : Json) (k : String) : Option (Int × Int) :=
+  match j.getObjVal? k with
+  | .ok v => (match asInts v with | .ok [a, b] => some (a, b) | _ => none)
+  | _ => none
+
+def c07_cfg (j : Json) : Cfg :=
+  { fmt := if fStrD j "fmt" "C" == "U" then .U else .C,
+    shape := c07_optInt j "shape", active := c07_optPair j "active" }
+
+/-- a yield as JSON: `[coord, storage position or -1, payload]` -/
+def c07_row (d : Nat) (r : Int × Option Nat × T d) : Json :=
+  jList [jInt r.1, posJson r.2.1, treeToJson d r.2.2]
+
+def c07_rows (d : Nat) (rs : Fib Int (Option Nat × T d)) : Json := jList (rs.map (c07_row d))
+
+def c07_corow (d : Nat) (r : Int × List (Option Nat × T d)) : Json :=
+  jList [jInt r.1, jList (r.2.map (fun x => jList [posJson x.1, treeToJson d x.2]))]
+
+def c07_corows (d : Nat) (rs : List (Int × List (Option Nat × T d))) : Json := jList (rs.map (c07_corow d))
+
+def c07_same (a b : Json) : Bool := a.compress == b.compress
+
+def c07_implField (j : Json) (k : String) : Json :=
+  match j.getObjVal? "impl" with
+  | .ok i => (i.getObjVal? k).toOption.getD Json.null
+  | _ => Json.null
+
+def c07_implErr (j : Json) : Option String :=
+  match (c07_implField j "err").getStr? with
+  | .ok s => some s
+  | _ => none
+
+def c07_and (l : List (Bool × String)) : Bool × String :=
+  match l.find? (fun x => !x.1) with
+  | some x => (false, x.2)
+  | none => (true, "")
+
+/-- a yield list as a tree of depth d+1 (drops the positions) -/
+def c07_asTree (d : Nat) (rs : Fib Int (Option Nat × T d)) : T (d + 1) :=
+  show List (Int × T d) from rs.map (fun x => (x.1, x.2.2))
+
+/-- position of coordinate `c` in `f` -/
+def c07_posIn {d : Nat} (f : List (Int × T d)) (c : Int) : Option Nat := getPosition f c
+
+/-- the prune predicate families of the harness -/
+def c07_pred (d : Nat) (j : Json) : Except String (Nat → Int → T d → Bool) := do
+  let kind ← fStr j "kind"
+  match kind with
+  | "imask" => do
+    let bits ← asInts (← field j "bits")
+    pure (fun i _ _ => (bits.getD i 0) == 1)
+  | "cmod" => do
+    let a ← fInt j "a"; let b ← fInt j "b"
+    pure (fun _ c _ => c % a == b)
+  | "cmodimask" => do
+    let a ← fInt j "a"; let b ← fInt j "b"
+    let bits ← asInts (← field j "bits")
+    pure (fun i c _ => c % a == b || (bits.getD i 0) == 1)
+  | "all" => pure (fun _ _ _ => true)
+  | k => throw s!"C07: unknown predicate {k}"
+
+def c07_rangeTags {d : Nat} (dflt : Int) (l : List (Int × T d)) (s e : Option Int) (sp : Option Nat) : List String :=
+  (if l.isEmpty then ["empty-fiber"] else []) ++
+  (if l.any (fun x => isEmpty dflt d x.2) then ["skip-empty"] else []) ++
+  (if l.any (fun x => geEnd e x.1) then ["break"] else []) ++
+  (if l.any (fun x => !geStart s x.1) then ["below-start"] else []) ++
+  (if (rangeSpec (isEmpty dflt d) s e l).isEmpty then ["slice-empty"] else ["slice-nonempty"]) ++
+  (match sp with | some i => [if i == 0 then "sp0" else "sp+"] | none => [])
+
+/-- occupancy / range / active iteration and `__iter__` on a "C" rank -/
+def c07_handleRange (j : Json) (op : String) (d : Nat) (dflt : Int) : Except String Verdict := do
+  let t ← fTree j "t" (d + 1)
+  let l := (show List (Int × T d) from t)
+  let cfg := c07_cfg j
+  let emp := isEmpty dflt d
+  let sp := c07_optNat j "sp"
+  let old := (c07_optNat j "old").getD 0
+  let act := getActive cfg l
+  let (s, e) : Option Int × Option Int := match op with
+    | "range" => (c07_optInt j "s", c07_optInt j "e")
+    | "active" => (some act.1, some act.2)
+    | _ => (none, none)
+  let tags := c07_rangeTags dflt l s e sp
+  if !startLegal sp l then
+    let ok := c07_implErr j == some "rejected"
+    return { agree := ok, spec := true, tags := "illegal-start" :: tags, why := if ok then "" else "illegal start_pos not rejected" }
+  let ys := iterRange emp s e sp l
+  let mrows := c07_rows d (stored ys)
+  let msaved := savedAfter old sp ys
+  let y1 := c07_implField j "y1"
+  let after := c07_implField j "after"
+  let saved := c07_implField j "saved"
+  let (agree, why1) := c07_and [
+    (c07_same mrows y1, "yields differ from model"),
+    (c07_same (treeToJson (d + 1) t) after, "fiber changed by a read-only traversal (model)"),
+    (c07_same (jNat msaved) saved, "saved position differs from model")]
+  -- spec: the slice as defined; claimed without a shortcut, or with a valid one
+  let valid := match sp with | some i => validStart emp s e i l | none => true
+  let srows := c07_rows d (stored (rangeSpec (fun ip => emp ip.2) s e (withPos l)))
+  -- the saved position: that of the last element the implementation yielded, if a shortcut was given
+  let lastPos : Option Int := match (asList y1).toOption.bind (·.getLast?) with
+    | some r => (match asList r with | .ok (_ :: p :: _) => p.getInt?.toOption | _ => none)
+    | none => none
+  let ssaved : Int := match sp with | none => old | some _ => lastPos.getD old
+  let (spec, why2) := if valid then c07_and [
+      (c07_same srows y1, "yields are not the named slice"),
+      (c07_same (jInt ssaved) saved, "saved position is not the position of the last yielded element"),
+      (c07_same (treeToJson (d + 1) t) after, "fiber changed by a read-only traversal")]
+    else (true, "")
+  pure { agree, spec, model := mrows, why := if why1.isEmpty then why2 else why1,
+         tags := tags ++ (match sp with | some _ => [if valid then "sp-valid" else "sp-invalid"] | none => []) }
+
+def c07_coords (j : Json) (op : String) (cfg : Cfg) {π : Type} (l : Fib Int π) : List Int :=
+  let step := (c07_optNat j "step").getD 1
+  let w : Wrap := if op.startsWith "rshape" then .range (fIntD j "s" 0) (fIntD j "e" 0) step
+    else if op.startsWith "shape" then .shape else .active
+  wrapCoords w cfg l
+
+/-- single-fiber shape iteration, with and without reference creation -/
+def c07_handleShape (j : Json) (op : String) (d : Nat) (dflt : Int) : Except String Verdict := do
+  let t ← fTree j "t" (d + 1)
+  let l := (show List (Int × T d) from t)
+  let cfg := c07_cfg j
+  let mk : T d := defaultTree dflt d
+  if op.startsWith "rshape" && (c07_optNat j "step").getD 1 == 0 then
+    return { agree := true, spec := true, tags := ["OUT_OF_MODEL"] }
+  let cs := c07_coords j op cfg l
+  let y1 := c07_implField j "y1"
+  let afterJ := c07_implField j "after"
+  let tags := (if cs.isEmpty then ["range-empty"] else []) ++
+    (if cs.any (fun c => (lookup l c).isNone) then ["absent-coord"] else []) ++
+    (if cs.any (fun c => (lookup l c).isSome) then ["stored-coord"] else []) ++
+    (if l.any (fun x => !cs.contains x.1) then ["outside-range"] else []) ++
+    (if l.any (fun x => isEmpty dflt d x.2) then ["explicit-empty"] else [])
+  if op.endsWith "ref" then
+    let r := shapeRefLoop mk l cs
+    let fin := r.1
+    let mrows := c07_rows d (r.2.map (fun x => (x.1, (c07_posIn fin x.1, x.2))))
+    let (agree, why1) := c07_and [
+      (c07_same mrows y1, "yields differ from model"),
+      (c07_same (treeToJson (d + 1) (show T (d + 1) from fin)) afterJ, "fiber after the traversal differs from model")]
+    let after ← parseTree (d + 1) afterJ
+    let al := (show List (Int × T d) from after)
+    let srows := c07_rows d (cs.map (fun c => (c, (c07_posIn al c, (lookup l c).getD mk))))
+    let okTree := sortedB al &&
+      (al.map (·.1) ++ l.map (·.1) ++ cs).all (fun c =>
+        match lookup al c, refExpect mk l cs c with
+        | some x, some y => treeEq d x y
+        | none, none => true
+        | _, _ => false)
+    let (spec, why2) := c07_and [
+      (okTree, "after a reference traversal the fiber is not the original plus exactly the visited absent coordinates"),
+      (c07_same srows y1, "yields are not (coordinate, stored-or-default payload) for every coordinate of the range")]
+    pure { agree, spec, model := mrows, why := if why1.isEmpty then why2 else why1,
+           tags := "ref" :: tags ++ (if fin.length > l.length then ["inserted"] else []) }
+  else
+    let mrows := c07_rows d (shapeIter mk l cs)
+    let srows := c07_rows d (shapeSpec mk l cs)
+    let same := c07_same (treeToJson (d + 1) t) afterJ
+    let (agree, why1) := c07_and [(c07_same mrows y1, "yields differ from model"),
+      (same, "fiber changed by a read-only traversal (model)")]
+    let (spec, why2) := c07_and [(c07_same srows y1, "yields are not every coordinate of the range with stored-or-default payload"),
+      (same, "fiber changed by a read-only traversal")]
+    pure { agree, spec, model := mrows, why := if why1.isEmpty then why2 else why1, tags }
+
+/-- dense co-iteration -/
+def c07_handleCo (j : Json) (op : String) (d : Nat) (dflt : Int) : Except String Verdict := do
+  let tsJ ← fArr j "ts"
+  let ts ← tsJ.mapM (parseTree (d + 1))
+  let fs : List (Fib Int (T d)) := ts.map (fun t => (show List (Int × T d) from t))
+  let cfg := c07_cfg j
+  let mk : T d := defaultTree dflt d
+  match fs with
+  | [] => return { agree := true, spec := true, tags := ["OUT_OF_MODEL"] }
+  | f0 :: _ =>
+  let base := (op.drop 2).toString    -- "rshape…" / "shape…" / "ashape…"
+  if base.startsWith "rshape" && (c07_optNat j "step").getD 1 == 0 then
+    return { agree := true, spec := true, tags := ["OUT_OF_MODEL"] }
+  let cs := c07_coords j base cfg f0
+  let y1 := c07_implField j "y1"
+  let y2 := c07_implField j "y2"
+  let afterJ := c07_implField j "after"
+  let tags := [s!"k{fs.length}"] ++ (if cs.isEmpty then ["range-empty"] else []) ++
+    (if cs.any (fun c => fs.any (fun f => (lookup f c).isNone)) then ["absent-coord"] else []) ++
+    (if cs.any (fun c => fs.any (fun f => (lookup f c).isSome)) then ["stored-coord"] else [])
+  let treesJson (l : List (Fib Int (T d))) : Json :=
+    jList (l.map (fun f => treeToJson (d + 1) (show T (d + 1) from f)))
+  if op.endsWith "ref" then
+    let r := coShapeRefLoop mk fs cs
+    let fin := r.1
+    let rowsOf (fin : List (Fib Int (T d))) (ys : List (Int × List (T d))) :=
+      c07_corows d (ys.map (fun x => (x.1, (fin.zip x.2).map (fun fp => (c07_posIn fp.1 x.1, fp.2)))))
+    let mrows := rowsOf fin r.2
+    let r2 := coShapeRefLoop mk fin cs
+    let (agree, why1) := c07_and [
+      (c07_same mrows y1, "yields differ from model"),
+      (c07_same (rowsOf r2.1 r2.2) y2, "second traversal differs from model"),
+      (c07_same (treesJson r2.1) afterJ, "fibers after the traversals differ from model")]
+    let afters ← (← asList afterJ).mapM (parseTree (d + 1))
+    let als : List (Fib Int (T d)) := afters.map (fun t => (show List (Int × T d) from t))
+    let okTrees := als.length == fs.length && (fs.zip als).all (fun p =>
+      sortedB p.2 && (p.2.map (·.1) ++ p.1.map (·.1) ++ cs).all (fun c =>
+        match lookup p.2 c, refExpect mk p.1 cs c with
+        | some x, some y => treeEq d x y
+        | none, none => true
+        | _, _ => false))
+    let srows := c07_corows d (cs.map (fun c => (c, (fs.zip als).map (fun p => (c07_posIn p.2 c, (lookup p.1 c).getD mk)))))
+    let (spec, why2) := c07_and [
+      (okTrees, "after a reference co-iteration some fiber is not the original plus exactly the visited absent coordinates"),
+      (c07_same srows y1, "yields are not the tuples of stored-or-default payloads for every coordinate of the range"),
+      (c07_same y1 y2, "second traversal of the same lazy fiber differs")]
+    pure { agree, spec, model := mrows, why := if why1.isEmpty then why2 else why1,
+           tags := "ref" :: tags ++ (if (fin.zip fs).any (fun p => p.1.length > p.2.length) then ["inserted"] else []) }
+  else
+    let mrows := c07_corows d (coShape mk fs cs)
+    let srows := c07_corows d (coShapeSpec mk fs cs)
+    let same := c07_same (treesJson fs) afterJ
+    let (agree, why1) := c07_and [(c07_same mrows y1, "yields differ from model"),
+      (c07_same mrows y2, "second traversal differs from model"),
+      (same, "fibers changed by a read-only traversal (model)")]
+    let (spec, why2) := c07_and [(c07_same srows y1, "yields are not the tuples of stored-or-default payloads for every coordinate of the range"),
+      (c07_same y1 y2, "second traversal of the same lazy fiber differs"),
+      (same, "fibers changed by a read-only traversal")]
+    pure { agree, spec, model := mrows, why := if why1.isEmpty then why2 else why1, tags }
+
+/-- `project` / `prune`, the lazy result iterated twice and materialised -/
+def c07_handleLazy (j : Json) (op : String) (d : Nat) (dflt : Int) : Except String Verdict := do
+  let t ← fTree j "t" (d + 1)
+  let l := (show List (Int × T d) from t)
+  let cfg := c07_cfg j
+  let emp := isEmpty dflt d
+  let mk : T d := defaultTree dflt d
+  let sp := c07_optNat j "sp"
+  let os := c07_optInt j "os"
+  let oe := c07_optInt j "oe"
+  let plain := os.isNone && oe.isNone
+  let y1 := c07_implField j "y1"
+  let y2 := c07_implField j "y2"
+  let matJ := c07_implField j "mat"
+  let afterJ := c07_implField j "after"
+  let within := cfg.fmt == .C || withinActive emp cfg l
+  let baseTags := (if cfg.fmt == .U then ["U"] else []) ++ (if l.isEmpty then ["empty-fiber"] else []) ++
+    (if l.any (fun x => emp x.2) then ["explicit-empty"] else []) ++
+    (if !plain then ["outer-range"] else []) ++ (match sp with | some i => [if i == 0 then "sp0" else "sp+"] | none => [])
+  -- model, spec (if the case is in the property's domain), tags
+  let (m, specRows, tags) ← (match op with
+    | "project" => do
+      let k ← fInt j "k"; let mm ← fInt j "m"
+      let iv := c07_optPair j "iv"
+      let m := project emp mk cfg k mm iv sp os oe l
+      let valid : Bool := match sp with
+        | none => true
+        | some i => decide (0 < k) && projValidStart emp k mm iv i l
+      let inDomain := k != 0 && valid && within
+      let srows := if inDomain then some (projectSpec emp k mm iv os oe l) else none
+      let tr := (l.map (fun x => k * x.1 + mm))
+      let tg := (if k < 0 then ["rev"] else ["fwd"]) ++ (if iv.isSome then ["iv"] else []) ++
+        (match iv with
+         | some (lo, hi) => (if tr.any (fun c => c ≥ hi) then ["iv-break"] else []) ++ (if tr.any (fun c => c < lo) then ["iv-below"] else [])
+         | none => []) ++
+        (if sp.isSome then [if valid then "sp-valid" else "sp-invalid"] else []) ++
+(if !within then ["U-outside-active"] else [])
+      pure (m, srows, tg)
+    | "prune" => do
+      let pred ← c07_pred d (← field j "pred")
+      let m := prune emp mk cfg pred sp os oe l
+      let valid : Bool := match sp with
+        | none => true
+        | some i => (cfg.fmt == .U && decide (i < l.length)) || validStart emp none none i l
+      let srows := if valid then some (pruneSpec emp mk cfg pred os oe l) else none
+      pure (m, srows, (if sp.isSome then [if valid then "sp-valid" else "sp-invalid"] else []))
+    | o => throw s!"C07: unknown lazy op {o}")
+  let tags := op :: baseTags ++ tags
+  let unchanged := c07_same (treeToJson (d + 1) t) afterJ
+  match m with
+  | .error e =>
+    let ok := c07_implErr j == some e.toString
+    -- the property claims a result for every case of its domain
+    let spec := specRows.isNone
+    pure { agree := ok, spec, tags := s!"model-{e.toString}" :: tags,
+           why := if !ok then s!"model expects {e.toString}" else if !spec then s!"{e.toString} on an input of the property's domain" else "" }
+  | .ok rows =>
+    let mrows := c07_rows d rows
+    let mmat := treeToJson (d + 1) (fromLazy dflt d (rows.map (fun x => (x.1, x.2.2))))
+    let (agree, why1) := c07_and [
+      ((c07_implErr j).isNone, "implementation raised, model yields"),
+      (c07_same mrows y1, "yields differ from model"),
+      (c07_same mrows y2, "second traversal differs from model"),
+      (!plain || c07_same mmat matJ, "fromLazy differs from model"),
+      (unchanged, "source fiber changed (model)")]
+    let (spec, why2) ← (match specRows with
+      | none => pure (true, "")
+      | some sr => do
+        let matOk ← (if plain && (c07_implErr j).isNone then do
+            let mat ← parseTree (d + 1) matJ
+            pure (wfB (d + 1) mat && fiberEq dflt dflt (d + 1) mat (c07_asTree d sr))
+          else pure true)
+        pure (c07_and [
+          ((c07_implErr j).isNone, "exception on an input of the property's domain"),
+          (c07_same (c07_rows d sr) y1, "yields are not the fiber's payloads under the transformed / filtered coordinates"),
+          (c07_same y1 y2, "second traversal of the same lazy fiber differs"),
+          (matOk, "fromLazy of the lazy fiber is not equal to the eager fiber of its elements"),
+          (unchanged, "source fiber changed")]))
+    pure { agree, spec, model := mrows, why := if why1.isEmpty then why2 else why1,
+           tags := tags ++ (if rows.isEmpty then ["result-empty"] else ["result-nonempty"]) }
+
+def handleC07 (j : Json) : Except String Verdict := do
+  let op ← fStr j "op"
+  let d ← fNat j "d"
+  let dflt := fIntD j "dflt" 0
+  -- precondition: well-formed operands
+  let okT := match j.getObjVal? "t" with
+    | .ok tj => tj.isNull || (match parseTree (d + 1) tj with | .ok t => wfB (d + 1) t | _ => false)
+    | _ => true
+  let okTs := match fArr j "ts" with
+    | .ok l => l.all (fun tj => match parseTree (d + 1) tj with | .ok t => wfB (d + 1) t | _ => false)
+    | _ => true
+  if !(okT && okTs) then return { agree := true, spec := true, tags := ["OUT_OF_MODEL"] }
+  let cfg := c07_cfg j
+  let v ← (match op with
+    | "range" | "occ" | "active" => c07_handleRange j op d dflt
+    | "iter" => if cfg.fmt == .U then c07_handleShape j "ashape" d dflt else c07_handleRange j "occ" d dflt
+    | "rshape" | "shape" | "ashape" | "rshaperef" | "shaperef" | "ashaperef" => c07_handleShape j op d dflt
+    | "corshape" | "coshape" | "coashape" | "corshaperef" | "coshaperef" | "coashaperef" => c07_handleCo j op d dflt
+    | "project" | "prune" => c07_handleLazy j op d dflt
+    | o => throw s!"C07: unknown op {o}")
+  let extra := [s!"op:{op}", if cfg.fmt == .U then "fmt:U" else "fmt:C", s!"depth:{d + 1}", s!"dflt:{dflt}",
+    fStrD j "kind" "free"] ++ (if cfg.shape.isSome then ["shape-declared"] else []) ++
+    (if cfg.active.isSome then ["active-set"] else [])
+  pure { v with tags := (if v.tags.contains "OUT_OF_MODEL" then v.tags else extra ++ v.tags) }
 
 end FtDriver
